@@ -698,6 +698,9 @@ pub fn run(tier: Tier, seed: u64) -> i32 {
     if !rep.failed() {
         rep.add(run::run_random("generated_foreign_images", seed, tier.pick(3000, 80000), "image", || run::boxed(case_strategy()), |c: &ImgCase| eval(c)));
     }
+    if !rep.failed() && tier == Tier::Thorough {
+        rep.add(run::fuzz_block("image", 200_000, seed, 512));
+    }
     rep.finish()
 }
 
